@@ -295,7 +295,12 @@ func TestVerifReplay(t *testing.T) {
 	if rel == "" {
 		pkgArg = "."
 	}
-	cmd := exec.Command("go", "test", "-tags", "verif", "-vet=off", "-count=1", "-overlay", ovFile, "-run", "^TestVerifReplay$", "-timeout", "120s", pkgArg)
+	for _, f := range []string{"go.mod", "go.sum"} {
+		if b, err := os.ReadFile(filepath.Join(repoDir, f)); err == nil {
+			os.WriteFile(filepath.Join(tmp, f), b, 0o644)
+		}
+	}
+	cmd := exec.Command("go", "test", "-tags", "verif", "-vet=off", "-count=1", "-modfile="+filepath.Join(tmp, "go.mod"), "-overlay", ovFile, "-run", "^TestVerifReplay$", "-timeout", "120s", pkgArg)
 	cmd.Dir = repoDir
 	cmd.Env = append(os.Environ(), "GOFLAGS=-mod=mod", "GOPROXY=off", "GOSUMDB=off", "GOTOOLCHAIN=local", "VERIF_REPLAY="+replayPath)
 	done := make(chan struct{})
